@@ -479,7 +479,7 @@ func (s *UDPSession) Close() error {
 	s.mu.Unlock()
 
 	if s.l != nil { // belongs to listener
-		s.l.closeSession(s.remote)
+		s.l.removeSession(s)
 		return nil
 	}
 
@@ -1404,6 +1404,20 @@ func (l *Listener) Control(f func(conn net.PacketConn) error) error {
 	defer l.sessionLock.Unlock()
 
 	return f(l.conn)
+}
+
+// removeSession removes a closed session from the session table, unless a newer session
+// has meanwhile taken over its address
+func (l *Listener) removeSession(s *UDPSession) (ret bool) {
+	l.sessionLock.Lock()
+	defer l.sessionLock.Unlock()
+
+	key := s.remote.String()
+	if cur, ok := l.sessions[key]; ok && cur == s {
+		delete(l.sessions, key)
+		return true
+	}
+	return false
 }
 
 // closeSession notify the listener that a session has closed
